@@ -629,7 +629,7 @@ theorem dispatchStrm_inv (v : View) (h : Inv m0 true c) : Inv m0 true (c.dispatc
   refine inv_ite (fun _ => inv_emit_inert _ rfl h) fun _ => inv_ite (fun _ => inv_emit_inert _ rfl h) fun _ => ?_
   refine inv_ite (fun _ => ?_) fun _ => inv_ite (fun _ => inv_emit_handler _ rfl rfl h) fun _ => inv_emit_inert _ rfl h
   simp only
-  exact sendInternal_inv _ _ (inv_upd_true _ (by simp) (inv_emit_handler _ rfl rfl h))
+  exact sendPdu_inv _ _ _ (inv_upd_true _ (by simp) (inv_emit_handler _ rfl rfl h))
 
 theorem tlsReadHs_inv (h : Inv m0 b c) : Inv m0 b c.tlsReadHs := by
   unfold Ctx.tlsReadHs
